@@ -11,7 +11,17 @@ import (
 	"golang.org/x/tools/go/ssa"
 )
 
-const maxInlineDepth = 8
+const maxInlineDepth = 5
+
+// smallEnough: only small loop-free helpers are verified in place; anything bigger needs a contract
+// (or is abstracted by its computed write effects).
+func smallEnough(f *ssa.Function) bool {
+	n := 0
+	for _, b := range f.Blocks {
+		n += len(b.Instrs)
+	}
+	return len(f.Blocks) <= 16 && n <= 120
+}
 
 func (ex *Exec) setResults(x ssa.Value, sig *types.Signature, rs []Term) {
 	n := sig.Results().Len()
@@ -25,6 +35,10 @@ func (ex *Exec) setResults(x ssa.Value, sig *types.Signature, rs []Term) {
 }
 
 func (ex *Exec) call(x ssa.Value, cc *ssa.CallCommon, h *Heap, reach Term) {
+	ex.callAt(x, cc, h, reach)
+}
+
+func (ex *Exec) callAt(x ssa.Value, cc *ssa.CallCommon, h *Heap, reach Term) {
 	if cc.IsInvoke() {
 		ex.invoke(x, cc, h, reach)
 		return
@@ -111,7 +125,8 @@ func (ex *Exec) callFunc1(f *ssa.Function, args, freeVars []Term, cc *ssa.CallCo
 	if c != nil && !c.Inline {
 		return ex.contractCall(f, c, args, h, reach, at)
 	}
-	inlinable := len(f.Blocks) > 0 && !li.hasLoops() && ex.depth < maxInlineDepth && !ex.onStack(f) && ex.P.inRepo(f) && f.Recover == nil
+	inlinable := len(f.Blocks) > 0 && !li.hasLoops() && ex.depth < maxInlineDepth && !ex.onStack(f) && ex.P.inRepo(f) && f.Recover == nil &&
+		((c != nil && c.Inline) || smallEnough(f))
 	if inlinable {
 		return ex.inline(f, args, freeVars, h, reach, at)
 	}
@@ -192,6 +207,9 @@ func (ex *Exec) contractCall(f *ssa.Function, c *Contract, args []Term, h *Heap,
 	n := ex.counters["call."+f.Name()]
 	var pos = ex.P.fset.Position(at.Pos())
 	for i, r := range c.Requires {
+		if r.OnlyProp != "" && !hasProp(q.props, r.OnlyProp) {
+			continue
+		}
 		g := sc.evalBool(r)
 		label := r.Label
 		if label == "" {
@@ -379,7 +397,9 @@ func (ex *Exec) invoke(x ssa.Value, cc *ssa.CallCommon, h *Heap, reach Term) {
 		args = append(args, ex.val(a))
 	}
 	sig := cc.Method.Type().(*types.Signature)
-	ex.safety("safe.nil", reach, not(eq(ifTag(recv), tInt(0))), x.(ssa.Instruction), "method call on nil interface: "+cc.Method.Name())
+	if ins, isIns := x.(ssa.Instruction); isIns {
+		ex.safety("safe.nil", reach, not(eq(ifTag(recv), tInt(0))), ins, "method call on nil interface: "+cc.Method.Name())
+	}
 	// Try a pure per-implementer term
 	if sig.Results().Len() == 1 {
 		if t, ok := ex.tryIfaceMethodTerm(recv, cc.Value.Type(), cc.Method.Name(), args, h); ok {
@@ -530,13 +550,36 @@ func (ex *Exec) specFunApp(f *ssa.Function, c *Contract, args []Term, h *Heap) T
 
 // ---------- defers ----------
 
+type deferred struct {
+	call  *ssa.Defer
+	reach Term
+}
+
+// deferInstr records the deferred call; it is executed at RunDefers (normal exits).
+// Exceptional exits (panics) are handled separately by the exceptional-frame machinery.
 func (ex *Exec) deferInstr(x *ssa.Defer, h *Heap, reach Term) {
-	unsupported("defer in %s", ex.fn.Name())
+	ex.defers = append(ex.defers, deferred{x, reach})
 }
 
 func (ex *Exec) runDefers(x *ssa.RunDefers, h *Heap, reach Term) {
-	// no defers recorded (Defer is unsupported), nothing to run
+	for i := len(ex.defers) - 1; i >= 0; i-- {
+		d := ex.defers[i]
+		// the deferred call runs only if its defer statement was executed on this path
+		g := and(reach, d.reach)
+		cc := d.call.Common()
+		ex.callAt(deferValue{d.call}, cc, h, g)
+	}
 }
+
+// deferValue adapts a Defer instruction to the ssa.Value interface expected by call().
+type deferValue struct{ d *ssa.Defer }
+
+func (v deferValue) Name() string                  { return "defer" }
+func (v deferValue) String() string                { return v.d.String() }
+func (v deferValue) Type() types.Type              { return types.NewTuple() }
+func (v deferValue) Parent() *ssa.Function         { return v.d.Parent() }
+func (v deferValue) Referrers() *[]ssa.Instruction { return nil }
+func (v deferValue) Pos() token.Pos                { return v.d.Pos() }
 
 var _ = strings.Contains
 
